@@ -35,7 +35,7 @@ def shards(tier, seed):
     return out
 
 
-CB_STYLES = ("method", "object", "lambda", "partial")
+CB_STYLES = ("method", "object", "lambda", "partial", "orphan-method")
 
 
 def session(kind, shape, step, scb, bystander=False, cb_style="method"):
@@ -237,7 +237,7 @@ def run_shard(spec, acc):
         steps = steps[:40] + steps[40::4]
     for step in steps:
         by = step % 3 == 1          # every third session shares process and loop with an untouched second client
-        style = CB_STYLES[step % 4]          # the callbacks come in every shape an application may hand over
+        style = CB_STYLES[step % len(CB_STYLES)]          # the callbacks come in every shape an application may hand over
         sim, stats, info = session(kind, shape, step, scb, bystander=by, cb_style=style)
         acc.cover("callback_styles", style)
         res = check(sim, stats, info, acc, kind, shape, step, scb)
